@@ -3,3 +3,5 @@ import TexSoupModel.Tok
 import TexSoupModel.Tree
 import TexSoupModel.Read
 import TexSoupModel.Nav
+import TexSoupModel.Path
+import TexSoupModel.Edit
